@@ -241,6 +241,17 @@ def locator_cases(rng, n, exhaustive=False):
                 ln = bytearray(b"\x10\x00\x00\x00"); ln[pos] = b
                 data = b"MZ" + bytes(9) + b"XFIR" + bytes(5) + b"XFIR" + bytes(ln) + b"39VM" + b"imap" + bytes(8)
                 out.append(Case(kind="locator-length-bytes", spec=dict(pos=pos, byte=b), lines=[f"riff locate {hx(data)}"], expect=[str(first_genuine(data))]))
+    # byte PAIRS / triples / quadruples in the length field that form ONE character in a multi-byte codec (UTF-8 lead + continuation
+    # bytes, Shift-JIS / GBK lead + trail, UTF-16 surrogates): a header decoded in one go gets shorter and the marker moves
+    # (seeded change C01-m1 of round 14: `content[:12].decode(errors='replace')`)
+    seqs = [bytes([a, b]) for a in (0xC2, 0xC3, 0xDF, 0x81, 0x9F, 0xE0, 0xFC, 0xD8, 0xDC) for b in (0x80, 0xBF, 0x40, 0xA0, 0x00, 0xDC)] + \
+           [bytes([0xE0, 0xA0, 0x80]), bytes([0xE2, 0x82, 0xAC]), bytes([0xEF, 0xBF, 0xBD]), bytes([0xED, 0xA0, 0x80]),
+            bytes([0xF0, 0x90, 0x80, 0x80]), bytes([0xF4, 0x8F, 0xBF, 0xBF]), bytes([0xF0, 0x9F, 0x98]), bytes([0xFF, 0xFE, 0x00, 0x00]), bytes([0xEF, 0xBB, 0xBF])]
+    for sq in seqs:
+        for pos in range(0, 5 - len(sq)):
+            ln = bytearray(4); ln[pos:pos + len(sq)] = sq
+            data = b"MZ" + bytes(9) + b"XFIR" + bytes(5) + b"XFIR" + bytes(ln) + b"39VM" + b"imap" + bytes(8)
+            out.append(Case(kind="locator-length-sequences", spec=dict(pos=pos, seq=sq.hex()), lines=[f"riff locate {hx(data)}"], expect=[str(first_genuine(data))]))
     for _ in range(n):
         pre = rand_prefix(rng, "<")
         data = pre + hdr + bytes(rng.randrange(256) for _ in range(rng.randrange(0, 30)))
